@@ -51,13 +51,30 @@ def fired(r, hbf_nominal_advances=None):
     return any(x[4] or x[5] or x[3] for x in r)
 
 
-def diff_glyph(hba, gida, hbb, gidb, tol=0.0, scale=1.0, adv_tol=None, degen=0.01):
+def diff_glyph(hba, gida, hbb, gidb, tol=0.0, scale=1.0, adv_tol=None, degen=0.01, loose=False):
     """Outline and advances of glyph gida in font a vs gidb in font b (a scaled by `scale`)."""
     A = [c for c in geom.canon(hba.draw(gida), tol=degen) if c["segs"]]
     B = [c for c in geom.canon(hbb.draw(gidb), tol=degen) if c["segs"]]
     if scale != 1.0:
         A = scale_contours(A, scale)
     ok, detail = geom.same_geometry(A, B, tol=tol)
+    if not ok and loose and len(A) != len(B):
+        # sub-unit specks may collapse to nothing (or survive) when every operand is rounded
+        def big(c):
+            b = geom.control_bounds([c])
+            return b is not None and (b[2] - b[0] > 1.5 * max(1.0, scale) or b[3] - b[1] > 1.5 * max(1.0, scale))
+
+        A2, B2 = [c for c in A if big(c)], [c for c in B if big(c)]
+        if len(A2) == len(B2):
+            A, B = A2, B2
+            ok, detail = geom.same_geometry(A, B, tol=tol)
+    if not ok and loose and len(A) == len(B):
+        # rounding may collapse or create sub-unit segments: fall back to a distance comparison
+        d = geom.outline_distance(A, B)
+        if d <= tol + 0.25:
+            ok = True
+        else:
+            detail += " (outline distance %.3f)" % d
     if not ok:
         return "outline: " + detail
     at = tol if adv_tol is None else adv_tol
